@@ -58,6 +58,7 @@ structure St where
   gcLast : Nat := 0          -- GNode.gcLast / GNode.lru of the model node
   lru : List Nat := []
   gcPages : List Nat := []   -- pages the last GC run removed
+  times : List Nat := []     -- GNode.times (gcBlockTimes LRU)
 
 def B : Nat := Generated.Stages.headerBatchCount
 def Sblocks : Nat := Generated.Stages.resetBlocksBatch
@@ -174,16 +175,18 @@ last 8 block indexes divisible by GCP that storeBlock has seen. -/
 def gcStep (s : St) (n : Node) : St × String :=
   if ¬ s.rub ∨ s.gcp = 0 ∨ ¬ s.flushedSomething then (s, "-") else
   let H := mkHist s.tbl
-  let g : GNode := { n := n, gcLast := s.gcLast, lru := s.lru }
+  let g : GNode := { n := n, gcLast := s.gcLast, lru := s.lru, times := s.times }
   let r := gcRun H B { mtb := s.mtb, gcp := s.gcp } g s.prevPersisted (fun _ v => v)
   if r.2.isEmpty then (s, "-") else
-  let tgt := (s.persisted - s.mtb) / s.gcp * s.gcp
-  let seen := s.acceptedAtFlush / s.gcp - tgt / s.gcp
-  let ts := if seen < Generated.Stages.blockTimesCache then "7273" else ""
+  -- the transfer GC ran iff the target's timestamp was still in the model's gcBlockTimes LRU
+  let known := match gcTarget { mtb := s.mtb, gcp := s.gcp } s.persisted s.prevPersisted with
+    | some tgt => decide (tgt ∈ s.times)
+    | none => false
+  let ts := if known then "7273" else ""
   -- the backend as a hash map again: what the model's database function still holds
   let hm' := s.hm.filter (fun k _ => (r.1.n.db k).isSome)
   let gone := (s.hm.toList.filterMap (fun p => match p.1 with | Key.page q => if (r.1.n.db (Key.page q)).isNone then some q else none | _ => none))
-  ({ s with node := some { r.1.n with db := dbOf hm' }, hm := hm', gcLast := r.1.gcLast, lru := r.1.lru, gcPages := gone },
+  ({ s with node := some { r.1.n with db := dbOf hm' }, hm := hm', gcLast := r.1.gcLast, lru := r.1.lru, times := r.1.times, gcPages := gone },
    ts ++ "03" ++ (if r.2.length = 2 then "80" else ""))
 
 partial def step (s : St) (ws : List String) : St × String :=
@@ -193,7 +196,8 @@ partial def step (s : St) (ws : List String) : St × String :=
     let m := rest.filterMap kv
     let num (k : String) : Nat := match m.lookup k with | some v => v.toNat?.getD 0 | none => 0
     let rub := m.lookup "rub" == some "true"
-    ({ s with mtb := num "mtb", gcp := num "gcp", rub := rub, node := some (fresh (mkHist [])) }, "ok")
+    ({ s with mtb := num "mtb", gcp := num "gcp", rub := rub, node := some (fresh (mkHist [])),
+              times := if rub ∧ num "gcp" > 0 then [0] else [] }, "ok")
   | ["hdr", _, b] =>
     match s.node, b.toNat? with
     | some n, some hb =>
@@ -206,7 +210,8 @@ partial def step (s : St) (ws : List String) : St × String :=
       if hh ≠ n.height + 1 then (s, "bad-height") else
       let tbl := (hh, { ntx := nt, pairs := parsePairs pairs : BlkInfo }) :: s.tbl
       let H := mkHist tbl
-      ({ s with tbl := tbl, node := some (Persist.step H B n .block).1, top := max s.top hh }, "ok")
+      let times := if s.rub ∧ s.gcp > 0 then noteBlockTime { mtb := s.mtb, gcp := s.gcp } s.times hh else s.times
+      ({ s with tbl := tbl, node := some (Persist.step H B n .block).1, top := max s.top hh, times := times }, "ok")
     | _, _, _ => (s, "bad-op")
   | ["blkwait", h, ntx, pairs] =>
     match s.node, h.toNat?, ntx.toNat? with
@@ -215,14 +220,15 @@ partial def step (s : St) (ws : List String) : St × String :=
       let tbl := (hh, { ntx := nt, pairs := parsePairs pairs : BlkInfo }) :: s.tbl
       let H := mkHist tbl
       let r := blockWait H B n
+      let times := if s.rub ∧ s.gcp > 0 then noteBlockTime { mtb := s.mtb, gcp := s.gcp } s.times hh else s.times
       let flushed := n.cache ++ waitHeaderWrites B n      -- what `flush_during_wait_atomic` says the batch is
       match r.2 with
       | some _ =>
         let hm' := compactW s.hm flushed
-        ({ s with tbl := tbl, node := some { r.1 with db := dbOf hm' }, hm := hm', top := max s.top hh,
+        ({ s with tbl := tbl, node := some { r.1 with db := dbOf hm' }, hm := hm', top := max s.top hh, times := times,
                   prevPersisted := s.persisted, persisted := n.height, acceptedAtFlush := n.height, flushedSomething := true },
          absWrites flushed)
-      | none => ({ s with tbl := tbl, node := some r.1, top := max s.top hh, flushedSomething := false }, "none")
+      | none => ({ s with tbl := tbl, node := some r.1, top := max s.top hh, times := times, flushedSomething := false }, "none")
     | _, _, _ => (s, "bad-op")
   | ["flush"] =>
     match s.node with
